@@ -79,7 +79,6 @@ PROPS = {
         "relevant_diff": dets_only("Xlsx", "Docx", "Pptx", "Jar", "APK", "Zip", "Epub", "Odt", "Ott", "Ods", "Ots", "Odp", "Otp", "Odg", "Otg", "Odf", "Odc", "Sxc"),
         "assumptions": COMMON_ASSUME + ["archives come from a standard zip writer; bodies contain no PK\\x03\\x04; entries of realistic length (>= 26 bytes after the 30-byte header) — the statement's own qualifiers"],
         "trusted_base": ["zipContains hand-modelled (Prims.lean); zip children regenerated; tie: walk ops on archive/zip output + oracle from the entry list read back with archive/zip"],
-        "partial": ["hop_reaches / ooxml_forward for markers in entries 2..6: not proved; covered by the correspondence (model = implementation on writer-produced archives) and the archive/zip oracle only"],
     },
     "C08": {
         "slices": ["C08"],
